@@ -199,6 +199,9 @@ def handle (line : String) : String :=
      | _ => "bad-tree")
   -- `prop <block>`: register_propagation on one basic block (Model/Propagate.lean, wire form there)
   | "prop" :: ws => AgVerif.Propagate.IO.reply ws
+  -- `dce <block>` / `dceprop <block>`: dead_code_elimination, and register_propagation run after it on the same chains
+  | "dce" :: ws => AgVerif.Propagate.IO.replyDce false ws
+  | "dceprop" :: ws => AgVerif.Propagate.IO.replyDce true ws
   | _ => "bad-op"
 
 def main : IO Unit := runMain handle
